@@ -23,6 +23,34 @@ USER_FEATURES = FN_FEATURES + TRAIT_FEATURES + ITER_FEATURES
 NAMEABLE = FN_FEATURES + ITER_FEATURES
 
 
+# must mirror engines/driver/src/iters.rs `ms_expected`
+MS_SCRIPT = """fn f_%(w)s_ms() -> Vec<Obs> {
+    use ::driver::MS_NONE;
+    let o = |x: Option<%(item)s>| x.map_or(MS_NONE, %(conv)s);
+    let mut v: Vec<Obs> = Vec::new();
+    let mut it = %(mk)s;
+    v.push(Obs::D(it.len() as i128));
+    v.push(o(it.next()));
+    v.push(Obs::D(it.len() as i128));
+    v.push(o(it.next_back()));
+    v.push(Obs::D(it.len() as i128));
+    let sh = it.size_hint();
+    v.push(Obs::D(sh.0 as i128));
+    v.push(Obs::D(sh.1.map_or(-1, |x| x as i128)));
+    v.push(o(it.nth(1)));
+    v.push(Obs::D(it.len() as i128));
+    v.push(o(it.nth_back(0)));
+    v.push(Obs::D(it.len() as i128));
+    v.push(Obs::D(it.count() as i128));
+    v.push(o(%(mk)s.last()));
+    v.push(o(%(mk)s.rev().next()));
+    v.push(Obs::D(%(mk)s.fold(0i128, |a, _| a + 1)));
+    v.push(o(%(mk)s.skip(2).next()));
+    v.push(Obs::D(%(mk)s.len() as i128));
+    v
+  }"""
+
+
 class Config:
     """An ordered feature list with parameters, optionally split over several attributes."""
 
@@ -139,6 +167,10 @@ def subject_source(sid, decl, cfg, derive_use="use ::enum_tools::EnumTools;", bo
         fld("range", "fn f_range(a: usize, b: usize) -> Box<dyn DynIter> { Box::new(W(<E>::%s(VARS[a], VARS[b]), ob as fn(E) -> Obs)) }" % cfg.item("range"))
     if cfg.has("names"):
         fld("names", "fn f_names() -> Box<dyn DynIter> { Box::new(W(<E>::%s(), obs as fn(&'static str) -> Obs)) }" % cfg.item("names"))
+    if cfg.has("iter"):
+        fld("iter_ms", MS_SCRIPT % {"w": "iter", "item": "E", "conv": "ob", "mk": "<E>::%s()" % cfg.item("iter")})
+    if cfg.has("names"):
+        fld("names_ms", MS_SCRIPT % {"w": "names", "item": "&'static str", "conv": "obs", "mk": "<E>::%s()" % cfg.item("names")})
     if cfg.has("names") and cfg.has("iter"):
         fld("zip", "fn f_zip() -> Vec<(i128, &'static str)> { <E>::%s().zip(<E>::%s()).map(|(e, s)| (e as R as i128, s)).collect() }" % (cfg.item("iter"), cfg.item("names")))
     if args is None:
